@@ -31,6 +31,7 @@ type EsSpec struct {
 	TsBack    bool // one backward timestamp jump to below the stream's first timestamp
 	TrailingNonIdr bool // key frames may end with a non-IDR NAL unit (filler data)
 	PsChange       bool // one key frame in the middle carries in-band SPS + a NEW PPS; it is in force from there on
+	PsChangeLone   bool // PsChange: the NEW PPS travels on its own (no SPS / VPS next to it) in front of that key frame
 	PartialPS      bool // H.265: some later key frames repeat SPS+PPS in-band without the VPS
 	AscChange      bool // AAC: a second sequence header with another channel configuration / object type mid-stream
 	TinyAudio      bool // Opus / G.711: some frames are a single byte (Opus DTX); they carry no tag and are matched by order
@@ -219,7 +220,9 @@ func BuildEs(r *rand.Rand, inc int, sp EsSpec) *EsStream {
 				// the parameter-set change: SPS (unchanged) and the new PPS travel in-band with this key frame
 				es.PsChangeFrame = idx
 				curPps = es.Pps2
-				if hevc {
+				if sp.PsChangeLone {
+					f.Nals = append([][]byte{curPps}, f.Nals...)
+				} else if hevc {
 					f.Nals = append([][]byte{es.Vps, es.Sps, curPps}, f.Nals...)
 				} else {
 					f.Nals = append([][]byte{es.Sps, curPps}, f.Nals...)
